@@ -230,16 +230,6 @@ macro_rules! free_range_harness {
     };
 }
 
-// @harness c08_free_range_o0
-// @props C08 C03
-// @tier thorough
-// @timeout 1500
-// @desc RefBlock::get_free_range / get_tail_free_range at 1-bit refcounts (64 entries): returned window lies at or after `start`, has exactly `count` entries, every entry in it has refcount 0, it is the first such window; None only if no window exists; tail range is all-zero, ends at the slice end, is preceded by a used entry, and is shorter than `count` whenever get_free_range failed; both loops terminate (unwinding assertions)
-// @bounds slice: 8 bytes arbitrary content; count 1..=3; start any; refcount_order 0 (concrete)
-// @funcs RefBlock::get_free_range RefBlock::get_tail_free_range RefBlock::__get RefBlock::entries
-// @stub alloc::fmt::format -> String::new()
-free_range_harness!(c08_free_range_o0, 0, 3, 66);
-
 // @harness c08_free_range_o2
 // @props C08 C03
 // @tier quick
@@ -275,10 +265,10 @@ free_range_harness!(c08_free_range_o4, 4, 4, 10);
 // @tier thorough
 // @timeout 1500
 // @desc same at 2-bit refcounts (32 entries)
-// @bounds slice: 8 bytes arbitrary content; count 1..=3; start any; refcount_order 1 (concrete)
+// @bounds slice: 8 bytes arbitrary content; count 1..=2; start any; refcount_order 1 (concrete)
 // @funcs RefBlock::get_free_range RefBlock::get_tail_free_range RefBlock::__get RefBlock::entries
 // @stub alloc::fmt::format -> String::new()
-free_range_harness!(c08_free_range_o1, 1, 3, 34);
+free_range_harness!(c08_free_range_o1, 1, 2, 34);
 
 // @harness c08_free_range_o5
 // @props C08 C03
